@@ -44,8 +44,8 @@ class Out:
 SPEC = [("P00", 0, 0, False), ("P01", 0, 1, False), ("P10", 1, 0, True), ("P11", 1, 1, False)]
 
 
-def make_domains(kind):
-    items = W.make_items(SPEC)
+def make_domains(kind, falsy=False):
+    items = W.make_items(SPEC, falsy=falsy)
     if kind == "list":
         return items, (lambda: list(items))
     return items, (lambda: (i for i in items))
@@ -110,6 +110,23 @@ def scenario(name, kind):
         if name == "S8_rule_query_twice":
             return [q, q], rend
         return [q, an(entity(x, x.b == 1))], rend
+    if name == "S11_variable_as_condition_then_compared":
+        # entities whose truth value is False; the shared variable is used as a bare condition in one query and as an
+        # operand of a comparison in the other
+        items, dom = make_domains(kind, falsy=True)
+        x = let(W.Item, dom(), name="x")
+        y = let(W.Item, dom(), name="y")
+        q1 = an(entity(x, and_(x.a >= 0, not_(x))))
+        q2 = an(set_of([x, y], and_(x.a == y.a, x != y)))
+        return [q1, q2], (lambda t, r: r.name if t == 0 else (r[x].name, r[y].name))
+    if name == "S12_shared_attribute_expression":
+        # ONE attribute expression object used as a condition in one query and as an operand in another
+        items, dom = make_domains(kind)
+        x = let(W.Item, dom(), name="x")
+        flag = x.flag
+        q1 = an(entity(x, and_(x.a == 0, not_(flag))))
+        q2 = an(entity(x, and_(flag == True, x.a >= 0)))
+        return [q1, q2], ent
     if name == "S10_three_queries_shared_variable":
         x = let(W.Item, dom(), name="x")
         return [an(entity(x, x.a == 0)), an(entity(x, x.b == 1)), an(entity(x, x.a == 1))], ent
@@ -118,7 +135,8 @@ def scenario(name, kind):
 
 SCENARIOS = ["S1_same_query_twice", "S2_shared_variable", "S3_shared_condition_one_negated", "S4_pair_and_single",
              "S5_query_and_its_use_as_subquery", "S6_two_pair_queries", "S7_domainless", "S8_rule_query_twice",
-             "S9_rule_and_plain_sharing_variable"]
+             "S9_rule_and_plain_sharing_variable", "S11_variable_as_condition_then_compared",
+             "S12_shared_attribute_expression"]
 
 
 def isolated(name, kind, t):
